@@ -72,23 +72,20 @@ def byteBuffer {α : Type} (M : Nat) (data : List α) (filler : α) : List α :=
   let lo := M - data.length - finalPad
   (List.range M).map (fun i => if lo ≤ i ∧ i < lo + data.length then data.getD (i - lo) filler else filler)
 
-/-- Cells of the structural check: payload position, filler, or one of the padding constants. -/
-inductive Tag where
-  | data (i : Nat)
-  | filler
-  | zero
-  | one
-  | len (i : Nat)
-deriving DecidableEq, Repr
+/-- Cells of the structural check, as numbers: constant `0x00` ↦ 0, constant `0x80` ↦ 1, length
+byte `i` ↦ `10 + i`, filler ↦ 999, payload position `i` ↦ `1000 + i` (all distinct). -/
+def tagData (i : Nat) : Nat := 1000 + i
+def tagLen (i : Nat) : Nat := 10 + i
+def tagFiller : Nat := 999
 
 /-- Structural statement for one `(M, len)`: on position-tagged cells, the blocks the gadget
 compresses are exactly the 64-byte blocks of `payload ‖ 0x80 ‖ 0…0 ‖ len64` (FIPS padding). -/
 def varlenStructOk (M len : Nat) : Bool :=
-  let data := (List.range len).map Tag.data
-  let lenB := (List.range 8).map Tag.len
-  let blocks := varlenBlocks Tag.zero Tag.one (fun _ => lenB) M (byteBuffer M data Tag.filler) len
+  let data := (List.range len).map tagData
+  let lenB := (List.range 8).map tagLen
+  let blocks := varlenBlocks 0 1 (fun _ => lenB) M (byteBuffer M data tagFiller) len
   let z := (64 - (len + 1 + 8) % 64) % 64
-  let padded := data ++ [Tag.one] ++ List.replicate z Tag.zero ++ lenB
-  decide (blocks.flatten = padded) && blocks.all (fun b => b.length == 64)
+  let padded := data ++ [1] ++ List.replicate z 0 ++ lenB
+  (blocks.flatten == padded) && blocks.all (fun b => b.length == 64)
 
 end MidnightZK.C07
